@@ -2,8 +2,6 @@ package fsm
 
 import (
 	"sort"
-	"strconv"
-	"strings"
 
 	"fmt"
 
@@ -169,34 +167,61 @@ func fillContainers(containers map[*container.Container][]string) error {
 }
 
 func (s *State) apply(args []string, pc matcher.ParseContext) bool {
-	return s.applyFrom(args, pc, nil, map[string]bool{})
+	return s.applyFrom(args, pc, nil, deadSet{})
 }
 
-// deadKey identifies a configuration entered right after input was consumed: whether it leads to
-// a terminal state depends on nothing else
-func deadKey(s *State, args []string, rejectOptions bool) string {
-	n := 32
+// deadKey identifies a configuration entered right after input was consumed (whether it leads to a
+// terminal state depends on nothing else) up to the content of the remaining arguments, of which it
+// only holds the number and a hash
+type deadKey struct {
+	s             *State
+	rejectOptions bool
+	n             int
+	h             uint64
+}
+
+// deadSet remembers the configurations explored without success. It keeps the slices of remaining
+// arguments themselves, not copies: the matchers never write to the slices they are given, and what is
+// left of a command line after positional arguments were taken is a tail of the same array, so a
+// long line costs one slice header per configuration
+type deadSet map[deadKey][][]string
+
+func keyOf(s *State, args []string, rejectOptions bool) deadKey {
+	// FNV-1a over the length, the first and the last bytes of every argument: the cost of a key must not
+	// depend on how long the arguments are (has compares what the hash does not tell apart)
+	h := uint64(14695981039346656037)
 	for _, a := range args {
-		n += len(a) + 8
+		h = (h ^ uint64(len(a))) * 1099511628211
+		for i := 0; i < len(a) && i < 4; i++ {
+			h = (h ^ uint64(a[i])) * 1099511628211
+		}
+		for i := len(a) - 4; i < len(a); i++ {
+			if i >= 4 {
+				h = (h ^ uint64(a[i])) * 1099511628211
+			}
+		}
 	}
-	var b strings.Builder
-	b.Grow(n)
-	fmt.Fprintf(&b, "%p %t", s, rejectOptions)
-	for _, a := range args {
-		// length-prefixed: no argument can be mistaken for two
-		b.WriteByte(' ')
-		b.WriteString(strconv.Itoa(len(a)))
-		b.WriteByte(':')
-		b.WriteString(a)
+	return deadKey{s, rejectOptions, len(args), h}
+}
+
+func (d deadSet) has(k deadKey, args []string) bool {
+	for _, a := range d[k] {
+		if sameArgs(a, args) {
+			return true
+		}
 	}
-	return b.String()
+	return false
+}
+
+func (d deadSet) add(k deadKey, args []string) {
+	d[k] = append(d[k], args)
 }
 
 // applyFrom is apply with the set of states already entered since input was last consumed:
 // going back to one of them without having consumed anything could only repeat the same attempts
 // dead remembers the configurations, entered right after input was consumed, that were already
 // explored without success: the same remaining arguments reached in another order need not be tried again
-func (s *State) applyFrom(args []string, pc matcher.ParseContext, seen map[*State]bool, dead map[string]bool) bool {
+func (s *State) applyFrom(args []string, pc matcher.ParseContext, seen map[*State]bool, dead deadSet) bool {
 	if len(args) > 0 {
 		arg := args[0]
 
@@ -234,14 +259,14 @@ func (s *State) applyFrom(args []string, pc matcher.ParseContext, seen map[*Stat
 	for _, m := range matches {
 		nextSeen := seen
 		progress := m.pc.RejectOptions != pc.RejectOptions || !sameArgs(m.rem, args)
-		key := ""
+		var key deadKey
 		if progress {
 			nextSeen = nil
 			// nothing has failed yet on most command lines: the key, which costs a pass over what is
 			// left of the line, is only built once there is something to look up or to record
 			if len(dead) > 0 {
-				key = deadKey(m.tr.Next, m.rem, m.pc.RejectOptions)
-				if dead[key] {
+				key = keyOf(m.tr.Next, m.rem, m.pc.RejectOptions)
+				if dead.has(key, m.rem) {
 					continue
 				}
 			}
@@ -253,10 +278,10 @@ func (s *State) applyFrom(args []string, pc matcher.ParseContext, seen map[*Stat
 			return true
 		}
 		if progress {
-			if key == "" {
-				key = deadKey(m.tr.Next, m.rem, m.pc.RejectOptions)
+			if key.s == nil {
+				key = keyOf(m.tr.Next, m.rem, m.pc.RejectOptions)
 			}
-			dead[key] = true
+			dead.add(key, m.rem)
 		}
 	}
 
